@@ -491,6 +491,7 @@ pub fn run(args: &Args) {
             println!("impl: {:?}", rustrtc::sdp::SdpFingerprint::parse(&format!("sha-256 {t}")));
             return;
         }
+        if case.trim() == "deadline" { super::c03::deadline::replay(); return; }
         let sc = Script::parse(case);
         match rt.block_on(run_script(&sc)) {
             Some(o) => { for (i, l) in o.lines { println!("ops: {i}\nimpl: {l}"); } for (s, d) in o.fails { println!("ORACLE-FAIL {s} {d}"); } }
@@ -499,6 +500,8 @@ pub fn run(args: &Args) {
         return;
     }
     let mut run = Run::new("c02", &args.out);
+    // run loops left alone until their handshake deadline (30 s of real time), concurrently with everything below
+    let deadline = super::c03::deadline::spawn_deadline_sessions();
     let mut rng = Rng::new(args.seed);
     for sc in scripts(args.tier_thorough, &mut rng) {
         let mut done = false;
@@ -517,5 +520,6 @@ pub fn run(args: &Args) {
     }
     fp_cases(&mut run, &mut rng, if args.tier_thorough { 50000 } else { 600 });
     sdpfp_cases(&mut run, &mut rng, if args.tier_thorough { 20000 } else { 500 });
+    super::c03::deadline::record(&mut run, deadline);
     run.finish();
 }
